@@ -456,6 +456,82 @@ func ownOf(k string) string {
 	return "o2"
 }
 
+// where did a successful unJail put its key?  (read off the observed projections before/after; coverage statistic only)
+func insertPlace(before, after M, k string) string {
+	if before["el"].(M)[k].(M)["in"].(bool) || !after["el"].(M)[k].(M)["in"].(bool) {
+		return ""
+	}
+	e := after["el"].(M)[k].(M)
+	switch {
+	case vtrace.Int(after["head"].(M)["len"]) == 1:
+		return "unjail-into-empty-queue"
+	case e["p"] == k:
+		return "unjail-front"
+	case e["n"] == "":
+		return "unjail-end"
+	}
+	return "unjail-middle"
+}
+
+// directed: histories that reach every branch of insertAfterLastJailed and removeFromWaitingList without passing
+// through the known defect first: six keys, one staking slot; j1 is un-jailed into the empty queue (LastJailedKey = j1),
+// w1 queues behind it, j2 is un-jailed -> MIDDLE insertion, w2 queues, j3 un-jailed -> middle insertion again:
+// [j1 j2 j3 w1 w2].  Then the first / a middle / the last / the last-jailed element leaves (in four different orders),
+// each time followed by jail + unJail of the key that left (inserted after the last jailed one again), and finally
+// the end-of-epoch calls.  Repeated for every flag setting.  Deterministic (independent of the seed).
+func directed(w *vtrace.Writer, places map[string]int) {
+	own := M{}
+	for _, k := range allKeys[:6] {
+		own[k] = ownOf(k)
+	}
+	T, F := true, false
+	flagSets := [][3]bool{{T, T, T}, {T, T, F}, {T, F, T}, {T, F, F}, {F, F, F}}
+	a, j1, j2, j3, w1, w2 := "a", "b", "c", "d", "e", "f"
+	orders := [][]string{{j1, w1, w2, j3}, {w1, j3, j1, w2}, {w2, j1, j3, w1}, {j3, w2, w1, j1}}
+	for _, fl := range flagSets {
+		for oi, order := range orders {
+			conf := norm(M{"enable": fl[0], "v2": fl[1], "clu": fl[2], "cmin": 1, "cmax": 1, "ubp": oi%2 == 1, "own": own}).(map[string]interface{})
+			s := newSut(conf)
+			w.NewTraceWith("New", conf, M{"ok": true}, s.proj())
+			do := func(act string, in M) {
+				before := s.proj()
+				ok := s.apply(act, in)
+				after := s.proj()
+				if act == "UnJail" && ok {
+					if pl := insertPlace(before, after, in["k"].(string)); pl != "" {
+						places[pl]++
+					}
+				}
+				w.Emit(act, in, M{"ok": ok}, after)
+			}
+			stake := func(k string) { do("Stake", M{"k": k, "auth": T, "reg": F}) }
+			viaJail := func(k string) {
+				do("Stake", M{"k": k, "auth": T, "reg": T})
+				do("Jail", M{"k": k, "auth": T})
+				do("UnJail", M{"k": k, "auth": T})
+			}
+			stake(a)
+			viaJail(j1)
+			stake(w1)
+			viaJail(j2)
+			stake(w2)
+			viaJail(j3)
+			for _, k := range order {
+				do("UnStake", M{"k": k, "auth": T, "rok": T})
+				do("Jail", M{"k": k, "auth": T})
+				do("UnJail", M{"k": k, "auth": T})
+			}
+			do("Switch", M{"k": a, "auth": T})
+			do("StakeFromQueue", M{"n": 1, "auth": T})
+			do("UpdateMax", M{"n": 2, "auth": T})
+			do("StakeFromQueue", M{"n": 1, "auth": T})
+			do("UnStakeEoE", M{"k": order[0], "auth": T})
+			do("ResetLastUnJailed", M{"auth": T})
+			do("CleanQueue", M{"auth": T})
+		}
+	}
+}
+
 func record(seed int64, traces, n, nkeys int, out string) {
 	w, err := vtrace.NewWriter(out)
 	if err != nil {
@@ -467,6 +543,10 @@ func record(seed int64, traces, n, nkeys int, out string) {
 	peers := []string{"none", "none", "eligible", "jailed", "bad"}
 	acts := map[string]int{}
 	okCalls := 0
+	places := map[string]int{}
+	if nkeys >= 6 {
+		directed(w, places)
+	}
 	for t := 0; t < traces; t++ {
 		own := M{}
 		for _, k := range keys {
@@ -544,12 +624,19 @@ func record(seed int64, traces, n, nkeys int, out string) {
 					in = M{"o": []string{"o1", "o2"}[rng.Intn(2)], "q": rng.Intn(nkeys/2+2) - 1}
 				}
 			}
+			before := s.proj()
 			ok := s.apply(a, in)
 			if ok {
 				okCalls++
 			}
 			acts[a]++
-			w.Emit(a, in, M{"ok": ok}, s.proj())
+			after := s.proj()
+			if a == "UnJail" && ok {
+				if pl := insertPlace(before, after, k); pl != "" {
+					places[pl]++
+				}
+			}
+			w.Emit(a, in, M{"ok": ok}, after)
 		}
 	}
 	if err := w.Close(); err != nil {
@@ -559,6 +646,7 @@ func record(seed int64, traces, n, nkeys int, out string) {
 	vtrace.Stat("traces", traces)
 	vtrace.Stat("ok_calls", okCalls)
 	vtrace.Stat("actions", acts)
+	vtrace.Stat("unjail_places", places)
 }
 
 // recordv: histories in which the staking SC is reached the way it is in production -- wallets call the REAL validator
